@@ -302,7 +302,16 @@ class Report:
         known = load_known()
         n_viol = 0
         lines = []
-        for k, (what, replay, failing) in enumerate(self.violations):
+        # a failing input, when one was found, IS the report: violations with an input come first and carry the list of proof
+        # obligations / correspondences that broke; the input-less entries are printed only when no input was found at all
+        found = [v for v in self.violations if v[2]]
+        broken = [v for v in self.violations if not v[2]]
+        if found:
+            also = [{"what": w, "broken": r.get("broken", [])} for w, r, _ in broken]
+            ordered = [(w, dict(r, also_broken=also) if also else r, f) for w, r, f in found]
+        else:
+            ordered = broken
+        for k, (what, replay, failing) in enumerate(ordered):
             match = None
             for e in known.get("known", []):
                 if e.get("property") == self.pid and e.get("match") and e["match"] in json.dumps(replay, sort_keys=True):
